@@ -8,7 +8,11 @@ package sched
 import (
 	"context"
 	"fmt"
+	"os"
+	"regexp"
+	"runtime"
 	"strings"
+	"sync"
 	"sync/atomic"
 	"time"
 
@@ -24,12 +28,21 @@ type pending struct {
 	obj  any
 }
 
+// A thread is a schedulable entity. In token mode it is a logical thread: one body goroutine plus the helper goroutines
+// that act on its behalf while it waits for them (util.Scatter workers), exactly one of which runs at a time. In
+// goroutine mode it is a single goroutine: a body goroutine, or any other goroutine that reached a scheduling point
+// (adopted).
 type thread struct {
 	id       int
+	gid      uint64
 	resume   chan struct{}
 	pend     pending
 	done     bool
 	panicked any
+	adopted  bool
+	parked   bool   // waiting at a scheduling point (or not started yet)
+	external bool   // goroutine mode: blocked in an operation the scheduler does not control
+	parkedG  uint64 // token mode: the goroutine of this logical thread that waits at the point
 }
 
 // PointRec records one scheduling decision.
@@ -49,6 +62,11 @@ type Exec struct {
 	Stuck        bool     // watchdog fired and the threads did not finish free-running either
 	Panics       map[int]string
 	Preemptions  int
+	// Anomaly (token mode only) says that goroutines of one logical thread ran side by side, or a goroutine ran although
+	// its thread had not been resumed: the code under test detaches work from the request that started it. The
+	// execution is void; the scenario has to be explored in goroutine mode.
+	Anomaly string
+	Adopted int // goroutine mode: goroutines that became threads of their own
 }
 
 // Choices returns the choice list of the execution.
@@ -71,23 +89,101 @@ func (x *Exec) Schedule() string {
 
 // Sched runs one execution.
 type Sched struct {
+	mu      sync.Mutex // guards threads and byGid
 	threads []*thread
+	byGid   map[uint64]*thread
 	cur     *thread
-	events  chan struct{}
+	events  chan *thread
 	free    atomic.Bool
 	step    int
+	perG    bool // goroutine mode
+	anomaly atomic.Pointer[string]
 }
 
-// Now returns the logical clock (number of scheduling decisions so far). Only the running thread may call it.
+// Now returns the logical clock (number of scheduling decisions so far).
 func (s *Sched) Now() int { return s.step }
+
+// Point is a scheduling point of the harness's own (for example: the moment a client gives up on its request).
+func (s *Sched) Point(kind string) { s.point(kind, nil) }
+
+func goid() uint64 {
+	var buf [64]byte
+	n := runtime.Stack(buf[:], false)
+	// "goroutine 123 ["
+	var id uint64
+	for _, c := range buf[10:n] {
+		if c < '0' || c > '9' {
+			break
+		}
+		id = id*10 + uint64(c-'0')
+	}
+	return id
+}
+
+func (s *Sched) flag(msg string) {
+	s.anomaly.CompareAndSwap(nil, &msg)
+	s.free.Store(true)
+	// Let everything run to its end: the execution is void.
+	s.mu.Lock()
+	for _, u := range s.threads {
+		select {
+		case u.resume <- struct{}{}:
+		default:
+		}
+	}
+	s.mu.Unlock()
+	select {
+	case s.events <- nil:
+	default:
+	}
+}
 
 func (s *Sched) point(kind string, obj any) {
 	if s.free.Load() {
 		return
 	}
-	t := s.cur
+	g := goid()
+	s.mu.Lock()
+	t := s.byGid[g]
+	if s.perG {
+		if t == nil {
+			t = &thread{id: len(s.threads), gid: g, resume: make(chan struct{}, 1), adopted: true}
+			s.threads = append(s.threads, t)
+			s.byGid[g] = t
+		}
+		t.pend = pending{kind, obj}
+		t.external = false
+		t.parked = true
+		s.mu.Unlock()
+		s.events <- t
+		<-t.resume
+		return
+	}
+	// Token mode: the caller acts for the thread that was resumed last.
+	cur := s.cur
+	msg := ""
+	switch {
+	case t == nil:
+		s.byGid[g] = cur
+		t = cur
+	case t != cur:
+		msg = fmt.Sprintf("a goroutine of thread %d reached %s while thread %d was the one running", t.id, kind, cur.id)
+	}
+	if msg == "" && t.done {
+		msg = fmt.Sprintf("a goroutine working for thread %d reached %s after the thread's requests had returned", t.id, kind)
+	}
+	if msg == "" && t.parkedG != 0 && t.parkedG != g {
+		msg = fmt.Sprintf("two goroutines of thread %d are active at once (one waits at %s, another reached %s)", t.id, t.pend.kind, kind)
+	}
+	if msg != "" {
+		s.mu.Unlock()
+		s.flag(msg)
+		return
+	}
 	t.pend = pending{kind, obj}
-	s.events <- struct{}{}
+	t.parkedG = g
+	s.mu.Unlock()
+	s.events <- t
 	<-t.resume
 }
 
@@ -113,26 +209,83 @@ type ErrDiverged struct{ Msg string }
 
 func (e *ErrDiverged) Error() string { return "replay diverged: " + e.Msg }
 
-// Run executes bodies under the scheduler, replaying prefix and then taking choice 0 at every later point.
-// expect (optional) holds, for each prefix position, the enabled set recorded earlier; a difference is a hard error.
+var dumpBuf = make([]byte, 1<<20)
+
+var goroutineHeader = regexp.MustCompile(`(?m)^goroutine (\d+) \[([^\],]+)`)
+
+// quiescent takes a dump of all goroutines and reports whether none but the caller can run, together with the ids of
+// the goroutines that exist. Wake-ups are synchronous in the Go runtime (the sender marks the receiver runnable), so once
+// nothing is runnable nothing will become runnable except by a timer or by a decision of the scheduler.
+func quiescent() (bool, map[uint64]bool) {
+	buf := dumpBuf
+	n := runtime.Stack(buf, true)
+	if n == len(buf) {
+		dumpBuf = make([]byte, 2*len(buf))
+		return false, nil
+	}
+	alive := map[uint64]bool{}
+	quiet := true
+	first := true
+	for _, m := range goroutineHeader.FindAllSubmatch(buf[:n], -1) {
+		var id uint64
+		for _, c := range m[1] {
+			id = id*10 + uint64(c-'0')
+		}
+		alive[id] = true
+		if first {
+			first = false // the caller itself
+			continue
+		}
+		switch string(m[2]) {
+		case "running", "runnable", "syscall":
+			quiet = false
+		}
+	}
+	return quiet, alive
+}
+
+// Run executes bodies under the scheduler in token mode.
 func Run(prefix []int, expect [][]int, bodies []func(s *Sched)) (*Exec, error) {
-	s := &Sched{events: make(chan struct{}, 2*len(bodies)+2)}
+	return RunMode(prefix, expect, bodies, false)
+}
+
+// RunMode executes bodies under the scheduler, replaying prefix and then taking choice 0 at every later point.
+// expect (optional) holds, for each prefix position, the enabled set recorded earlier; a difference is a hard error.
+// perG selects goroutine mode, in which every goroutine that reaches a scheduling point is a thread of its own and a
+// step ends when no goroutine of the process can run any more.
+func RunMode(prefix []int, expect [][]int, bodies []func(s *Sched), perG bool) (*Exec, error) {
+	s := &Sched{events: make(chan *thread, 1024), byGid: map[uint64]*thread{}, perG: perG}
 	x := &Exec{Panics: map[int]string{}}
+	n0 := runtime.NumGoroutine()
+	var started sync.WaitGroup
 	for i, b := range bodies {
-		t := &thread{id: i, resume: make(chan struct{}, 1), pend: pending{kind: "start"}}
+		t := &thread{id: i, resume: make(chan struct{}, 1), pend: pending{kind: "start"}, parked: true}
 		s.threads = append(s.threads, t)
+		started.Add(1)
 		go func(t *thread, b func(s *Sched)) {
+			t.gid = goid()
+			s.mu.Lock()
+			s.byGid[t.gid] = t
+			s.mu.Unlock()
+			started.Done()
 			<-t.resume
 			defer func() {
 				if r := recover(); r != nil {
 					t.panicked = r
 				}
+				s.mu.Lock()
 				t.done = true
-				s.events <- struct{}{}
+				left := !s.perG && t.parkedG != 0 && t.parkedG != t.gid
+				s.mu.Unlock()
+				if left && !s.free.Load() {
+					s.flag(fmt.Sprintf("the requests of thread %d returned while a goroutine working for them still waits at %s", t.id, t.pend.kind))
+				}
+				s.events <- t
 			}()
 			b(s)
 		}(t, b)
 	}
+	started.Wait()
 	verifsync.SetHooks(&verifsync.Hooks{Point: s.point})
 	verifhook.SetHandler(func(_ context.Context, site string, _ ...any) error {
 		if strings.HasSuffix(site, ".exit") {
@@ -145,17 +298,71 @@ func Run(prefix []int, expect [][]int, bodies []func(s *Sched)) (*Exec, error) {
 		verifsync.SetHooks(nil)
 		verifhook.SetHandler(nil)
 	}()
+	finishFree := func() {
+		// Finish free-running (the execution is void or uncontrolled).
+		s.free.Store(true)
+		s.mu.Lock()
+		ths := append([]*thread{}, s.threads...)
+		s.mu.Unlock()
+		for _, u := range ths {
+			select {
+			case u.resume <- struct{}{}:
+			default:
+			}
+		}
+		deadline := time.After(Watchdog)
+		for {
+			n := 0
+			s.mu.Lock()
+			for _, u := range ths {
+				if !u.done && !u.adopted {
+					n++
+				}
+			}
+			s.mu.Unlock()
+			if n == 0 {
+				break
+			}
+			select {
+			case <-s.events:
+			case <-deadline:
+				x.Stuck = true
+			}
+			if x.Stuck {
+				break
+			}
+		}
+		for _, u := range ths {
+			if u.panicked != nil {
+				x.Panics[u.id] = fmt.Sprint(u.panicked)
+			}
+		}
+		// Helper and detached goroutines must have come to rest before the next execution starts (they use the store).
+		for begin := time.Now(); time.Since(begin) < Watchdog; {
+			runtime.Gosched()
+			if q, _ := quiescent(); q {
+				break
+			}
+			time.Sleep(50 * time.Microsecond)
+		}
+	}
 
 	last := -1
 	for {
+		s.mu.Lock()
+		ths := append([]*thread{}, s.threads...)
+		s.mu.Unlock()
 		var en []int
 		lastEnabled := false
 		allDone := true
-		for _, t := range s.threads {
+		for _, t := range ths {
 			if t.done {
 				continue
 			}
 			allDone = false
+			if t.external || perG && !t.parked {
+				continue
+			}
 			if enabled(t.pend) {
 				if t.id == last {
 					lastEnabled = true
@@ -172,9 +379,13 @@ func Run(prefix []int, expect [][]int, bodies []func(s *Sched)) (*Exec, error) {
 		}
 		if len(en) == 0 {
 			x.Deadlock = true
-			for _, t := range s.threads {
+			for _, t := range ths {
 				if !t.done {
-					x.Blocked = append(x.Blocked, fmt.Sprintf("thread %d blocked at %s", t.id, t.pend.kind))
+					if t.external {
+						x.Blocked = append(x.Blocked, fmt.Sprintf("thread %d blocked in an operation outside the scheduler's control", t.id))
+					} else {
+						x.Blocked = append(x.Blocked, fmt.Sprintf("thread %d blocked at %s", t.id, t.pend.kind))
+					}
 				}
 			}
 			// The blocked goroutines are abandoned (they hold nothing the next execution uses).
@@ -191,7 +402,7 @@ func Run(prefix []int, expect [][]int, bodies []func(s *Sched)) (*Exec, error) {
 				return x, &ErrDiverged{fmt.Sprintf("enabled set %v at point %d, recorded %v", en, i, expect[i])}
 			}
 		}
-		t := s.threads[en[c]]
+		t := ths[en[c]]
 		if lastEnabled && c != 0 {
 			x.Preemptions++
 		}
@@ -199,52 +410,126 @@ func Run(prefix []int, expect [][]int, bodies []func(s *Sched)) (*Exec, error) {
 		s.cur = t
 		s.step++
 		last = t.id
+		t.parked = false
+		t.parkedG = 0
 		t.resume <- struct{}{}
-		select {
-		case <-s.events:
-		case <-time.After(Watchdog):
-			// The running thread blocks in something outside scheduler control: finish free-running.
-			x.Uncontrolled = true
-			s.free.Store(true)
-			for _, u := range s.threads {
-				select {
-				case u.resume <- struct{}{}:
-				default:
+		if !perG {
+			// Token mode: exactly one event, from the thread that was resumed.
+			select {
+			case ev := <-s.events:
+				if a := s.anomaly.Load(); a != nil {
+					x.Anomaly = *a
+				} else if ev != t {
+					x.Anomaly = fmt.Sprintf("thread %d reported while thread %d was the one running", ev.id, t.id)
 				}
-			}
-			deadline := time.After(Watchdog)
-			for {
-				n := 0
-				for _, u := range s.threads {
-					if !u.done {
-						n++
+				if x.Anomaly == "" && x.Points[len(x.Points)-1].Kind == "cancel" {
+					// An event of the environment can wake goroutines the scheduler believes to be waiting. Let them
+					// run until nothing can run: whoever reports now was not resumed by the scheduler.
+					for begin := time.Now(); time.Since(begin) < Watchdog; {
+						runtime.Gosched()
+						if q, _ := quiescent(); q {
+							break
+						}
+						time.Sleep(50 * time.Microsecond)
+					}
+					if a := s.anomaly.Load(); a != nil {
+						x.Anomaly = *a
+					} else if len(s.events) > 0 {
+						x.Anomaly = "a thread the scheduler had not resumed moved after a cancellation"
 					}
 				}
-				if n == 0 {
-					break
+				if x.Anomaly != "" {
+					finishFree()
+					return x, nil
 				}
+			case <-time.After(Watchdog):
+				// The running thread blocks in something outside scheduler control: finish free-running.
+				x.Uncontrolled = true
+				finishFree()
+				return x, nil
+			}
+			continue
+		}
+		// Goroutine mode: the step ends when nothing in the process can run.
+		begin := time.Now()
+		for spins := 0; ; spins++ {
+			runtime.Gosched()
+			for more := true; more; {
 				select {
 				case <-s.events:
-				case <-deadline:
-					x.Stuck = true
-				}
-				if x.Stuck {
-					break
+				default:
+					more = false
 				}
 			}
-			for _, u := range s.threads {
-				if u.panicked != nil {
-					x.Panics[u.id] = fmt.Sprint(u.panicked)
+			quiet, alive := quiescent()
+			if quiet && len(s.events) == 0 {
+				s.mu.Lock()
+				for _, u := range s.threads {
+					if u.done || u.parked {
+						continue
+					}
+					if !alive[u.gid] {
+						u.done = true // an adopted goroutine that has finished
+					} else {
+						u.external = true
+					}
 				}
+				s.mu.Unlock()
+				break
 			}
-			return x, nil
+			if time.Since(begin) > Watchdog {
+				x.Uncontrolled = true
+				finishFree()
+				return x, nil
+			}
+			if spins > 20 {
+				time.Sleep(50 * time.Microsecond)
+			}
 		}
 	}
+	if a := s.anomaly.Load(); a != nil {
+		x.Anomaly = *a
+		finishFree()
+		return x, nil
+	}
+	if !perG && !x.Deadlock {
+		// Every goroutine that worked for a thread must be gone once all requests have returned.
+		for i := 0; i < 4 && runtime.NumGoroutine() > n0; i++ {
+			runtime.Gosched()
+		}
+		if runtime.NumGoroutine() > n0 {
+			var alive map[uint64]bool
+			for begin := time.Now(); time.Since(begin) < Watchdog; {
+				var q bool
+				if q, alive = quiescent(); q {
+					break
+				}
+				runtime.Gosched()
+				time.Sleep(50 * time.Microsecond)
+			}
+			s.mu.Lock()
+			for g, u := range s.byGid {
+				if alive[g] && x.Anomaly == "" {
+					x.Anomaly = fmt.Sprintf("a goroutine that worked for thread %d still exists after all requests have returned", u.id)
+				}
+			}
+			s.mu.Unlock()
+			if x.Anomaly != "" {
+				finishFree()
+				return x, nil
+			}
+		}
+	}
+	s.mu.Lock()
 	for _, u := range s.threads {
 		if u.panicked != nil {
 			x.Panics[u.id] = fmt.Sprint(u.panicked)
 		}
+		if u.adopted {
+			x.Adopted++
+		}
 	}
+	s.mu.Unlock()
 	return x, nil
 }
 
@@ -267,6 +552,11 @@ type Stats struct {
 	Deadlocks      int
 	Uncontrolled   int
 	Outcomes       map[string]int
+	// GoroutineMode is set when the scenario had to be explored with every goroutine as a thread of its own, because
+	// in token mode the anomaly described in Anomaly was seen.
+	GoroutineMode bool
+	Anomaly       string
+	Adopted       int // largest number of adopted goroutines in one execution
 }
 
 // Violation is a finding with its schedule.
@@ -275,21 +565,40 @@ type Violation struct {
 	Choices     []int
 	Schedule    string
 	Preemptions int
+	PerG        bool // found (and to be replayed) in goroutine mode
 }
 
 // Explore enumerates every execution with at most maxBound preemptions (iterating the bound from 0), checking each.
 // It stops at the first bound that produces a violation. outcome (optional) classifies executions for vacuity reporting.
 func Explore(sc Scenario, maxBound int, deadline time.Time, outcome func(x *Exec) string) (Stats, []Violation, error) {
-	st := Stats{BoundCompleted: -1, Outcomes: map[string]int{}}
+	if os.Getenv("VERIF_SCHED_MODE") == "goroutine" {
+		return explore(sc, maxBound, deadline, outcome, true, "forced")
+	}
+	st, viols, err := explore(sc, maxBound, deadline, outcome, false, "")
+	if an, ok := err.(*errAnomaly); ok {
+		return explore(sc, maxBound, deadline, outcome, true, an.msg)
+	}
+	return st, viols, err
+}
+
+type errAnomaly struct{ msg string }
+
+func (e *errAnomaly) Error() string { return "detached goroutine activity: " + e.msg }
+
+func explore(sc Scenario, maxBound int, deadline time.Time, outcome func(x *Exec) string, perG bool, anomaly string) (Stats, []Violation, error) {
+	st := Stats{BoundCompleted: -1, Outcomes: map[string]int{}, GoroutineMode: perG, Anomaly: anomaly}
 	var viols []Violation
 	seenKey := map[string]bool{}
 	// Determinism obligation: the default schedule run twice gives identical point traces.
 	var first *Exec
 	for k := 0; k < 2; k++ {
 		bodies, _ := sc()
-		x, err := Run(nil, nil, bodies)
+		x, err := RunMode(nil, nil, bodies, perG)
 		if err != nil {
 			return st, nil, err
+		}
+		if x.Anomaly != "" {
+			return st, nil, &errAnomaly{x.Anomaly}
 		}
 		if k == 0 {
 			first = x
@@ -307,9 +616,15 @@ func Explore(sc Scenario, maxBound int, deadline time.Time, outcome func(x *Exec
 				return nil
 			}
 			bodies, check := sc()
-			x, err := Run(prefix, expect, bodies)
+			x, err := RunMode(prefix, expect, bodies, perG)
 			if err != nil {
 				return err
+			}
+			if x.Anomaly != "" {
+				return &errAnomaly{x.Anomaly}
+			}
+			if x.Adopted > st.Adopted {
+				st.Adopted = x.Adopted
 			}
 			// Count only executions that are new at this bound (those with exactly `bound` preemptions),
 			// but explore children from all of them.
@@ -327,7 +642,7 @@ func Explore(sc Scenario, maxBound int, deadline time.Time, outcome func(x *Exec
 				for _, f := range check(x) {
 					if !seenKey[f.Key] {
 						seenKey[f.Key] = true
-						viols = append(viols, Violation{Finding: f, Choices: x.Choices(), Schedule: x.Schedule(), Preemptions: x.Preemptions})
+						viols = append(viols, Violation{Finding: f, Choices: x.Choices(), Schedule: x.Schedule(), Preemptions: x.Preemptions, PerG: perG})
 					}
 				}
 				if outcome != nil {
@@ -384,14 +699,17 @@ func Explore(sc Scenario, maxBound int, deadline time.Time, outcome func(x *Exec
 }
 
 // Replay re-executes a recorded choice list n times and returns the executions.
-func Replay(sc Scenario, choices []int, n int) ([]*Exec, [][]Finding, error) {
+func Replay(sc Scenario, choices []int, n int, perG bool) ([]*Exec, [][]Finding, error) {
 	var xs []*Exec
 	var fs [][]Finding
 	for k := 0; k < n; k++ {
 		bodies, check := sc()
-		x, err := Run(choices, nil, bodies)
+		x, err := RunMode(choices, nil, bodies, perG)
 		if err != nil {
 			return xs, fs, err
+		}
+		if x.Anomaly != "" {
+			return xs, fs, &errAnomaly{x.Anomaly}
 		}
 		xs = append(xs, x)
 		fs = append(fs, check(x))
